@@ -115,6 +115,8 @@ def _toy_opt(r):
         "loss": loss,
         "parameters": params,
     }
+    if r.get("checkpoint_all"):
+        opt["checkpoint_all"] = True  # one numbered file per checkpoint next to the plain name
     if r.get("groups"):
         half = max(1, len(params) // 2)
         opt["parameters"] = [{"params": params[:half]}, {"params": params[half:], "lr": _OPTIMIZERS[alg]["lr"] * 0.5}]
